@@ -76,6 +76,12 @@ def gen_reduce_case(
     patterns=None,
     allow_faults: bool = True,
     inexact_p: float = 0.0,
+    value_alphabet=None,
+    chunk_styles=None,
+    fill_choices=None,
+    min_counts=None,
+    sort_choices=None,
+    unsorted_expected_p: float = 0.0,
 ) -> dict:
     func = tape.choice("gen.func", funcs)
     method = tape.choice("gen.method", methods)
@@ -102,6 +108,10 @@ def gen_reduce_case(
     dtype = tape.choice("gen.dtype", dtypes)
     if func in BOOL:
         dtype = "b1"
+    if np.dtype(dtype).itemsize < 4 and np.dtype(dtype).kind in "iu" and (func in PROD_FAMILY or func in VAR_FAMILY):
+        # totals beyond the width of a narrow integer input are C20's subject (not a simulation target):
+        # keep products / sums of squares of narrow ints out of this generator
+        dtype = "i8"
     ndim = tape.randint("gen.ndim", 1, max_ndim)
     lead = [tape.randint("gen.lead", 1, 3) for _ in range(ndim - 1)]
     shape = lead + [n]
@@ -109,11 +119,17 @@ def gen_reduce_case(
     dt = np.dtype(dtype)
     nan_p = tape.choice("gen.nanp", nan_p_choices) if dt.kind == "f" else 0.0
     if func in PROD_FAMILY:
-        alphabet = PROD_FLOAT if dt.kind == "f" else PROD_INT
+        alphabet = PROD_FLOAT if dt.kind == "f" else (PROD_INT if dt.kind == "i" else None)
     elif inexact_p and dt.kind == "f" and tape.chance("gen.inexact", inexact_p):
         alphabet = [1 / 3, -2 / 3, 0.1, 1e8, -1e8, 1e-8, 7.0, 2.5]
     else:
         alphabet = None
+    if value_alphabet is not None and func not in PROD_FAMILY:
+        alphabet = [a for a in value_alphabet if dt.kind == "f" or float(a).is_integer()]
+        if dt.kind == "u":
+            alphabet = [a for a in alphabet if a >= 0]
+        if dt.kind == "b":
+            alphabet = [False, True]
     if func in ("argmax", "argmin"):
         nan_p = 0.0  # quantifier: arg* only on NaN-free groups
     vals = gen_values(tape, total, dtype=dtype, nan_p=nan_p, alphabet=alphabet).reshape(shape)
@@ -137,7 +153,7 @@ def gen_reduce_case(
             edges = [0] + keep + [n]
             chunks.append([b - a for a, b in zip(edges[:-1], edges[1:])])
     else:
-        c = gen_chunks(tape, n, max_blocks=max_blocks)
+        c = gen_chunks(tape, n, max_blocks=max_blocks, style=tape.choice("gen.chunkstyle", chunk_styles) if chunk_styles else None)
         tries = 0
         while len(c) < min_blocks and tries < 5:
             c = gen_chunks(tape, n, max_blocks=max_blocks, style="random")
@@ -155,6 +171,17 @@ def gen_reduce_case(
         extra = _extra_labels(kind, present, tape)
         allv = present + extra
         kwargs["expected_groups"] = sorted(allv)
+    elif expected_mode == "subset":
+        keep = [p for p in present if tape.chance("gen.subset", 0.5)]
+        extra = _extra_labels(kind, present, tape) if tape.chance("gen.subset.extra", 0.5) else []
+        allv = keep + extra
+        if not allv:
+            allv = [present[0]]
+        kwargs["expected_groups"] = sorted(allv)
+    elif expected_mode == "disjoint":
+        kwargs["expected_groups"] = sorted(_extra_labels(kind, present, tape))
+    if expected_mode != "none" and unsorted_expected_p and tape.chance("gen.unsorted", unsorted_expected_p):
+        kwargs["expected_groups"] = tape.shuffle("gen.unsorted.perm", kwargs["expected_groups"])
     if expected_mode != "none":
         if kind == "datetime":
             kwargs["expected_groups"] = np.array(kwargs["expected_groups"], dtype="M8[ns]")
@@ -175,6 +202,28 @@ def gen_reduce_case(
                 kwargs["fill_value"] = tape.choice("gen.fillu", [0, 100])
         else:
             kwargs["fill_value"] = tape.choice("gen.fill", [math.nan, math.nan, 0.0, -7.0])
+    if fill_choices is not None and expected_mode != "none":
+        fc = list(fill_choices)
+        if func in ARG:
+            fc = [f for f in fc if isinstance(f, (int, bool)) and not isinstance(f, float)] or [-1]
+        if dt.kind in "iu" and dt.itemsize < 4 and func in MINMAX + FIRSTLAST:
+            fc = [f for f in fc if isinstance(f, float) and f != f or abs(f) < 100] or [0]
+        if dt.kind == "u" and func in MINMAX + FIRSTLAST:
+            fc = [f for f in fc if (isinstance(f, float) and f != f) or f >= 0] or [0]
+        if func in BOOL or (dt.kind == "b" and func in MINMAX + FIRSTLAST):
+            # the result is boolean: only boolean fills are representable
+            fc = [False, 0, False]
+        kwargs["fill_value"] = tape.choice("gen.fillc", fc)
+    if min_counts is not None:
+        mc = tape.choice("gen.mincount", min_counts)
+        if mc is not None:
+            kwargs["min_count"] = mc
+            if "fill_value" not in kwargs and mc > 0:
+                kwargs["fill_value"] = math.nan if func not in ARG else -1
+    if sort_choices is not None:
+        srt = tape.choice("gen.sort", sort_choices)
+        if srt is not True:
+            kwargs["sort"] = srt
     if method is not None:
         kwargs["method"] = method
     reindex = tape.choice("gen.reindex", reindexes)
@@ -428,11 +477,13 @@ def call_eager(case):
 
 
 def gen_scan_case(tape: Tape, *, max_n=30, max_groups=5, max_blocks=12, allow_faults=True,
-                  dtypes=("f8", "f8", "f4", "i8", "i4", "b1"), funcs=SCANS, by_dask_p=0.15) -> dict:
+                  dtypes=("f8", "f8", "f4", "i8", "i4", "b1"), funcs=SCANS, by_dask_p=0.0) -> dict:
     func = tape.choice("gen.func", funcs)
     n = tape.randint("gen.n", 2, max_n)
     ngroups = tape.randint("gen.ngroups", 1, min(max_groups, n))
     codes, pattern = gen_codes(tape, n, ngroups)
+    if func == "nancumsum":
+        dtypes = tuple(d for d in dtypes if not d.startswith("M")) or ("f8",)
     kind = tape.choice("gen.labkind", ["int", "int", "float"])
     miss = tape.choice("gen.misslab", [0.0, 0.15]) if (kind == "float" and func != "nancumsum") else 0.0
     labels, uniq = labels_from_codes(tape, codes, ngroups, kind, missing_p=miss)
@@ -442,7 +493,12 @@ def gen_scan_case(tape: Tape, *, max_n=30, max_groups=5, max_blocks=12, allow_fa
     lead = [tape.randint("gen.lead", 1, 3) for _ in range(ndim - 1)]
     shape = lead + [n]
     nan_p = tape.choice("gen.nanp", [0.0, 0.2, 0.5, 0.8]) if dt.kind == "f" else 0.0
-    vals = gen_values(tape, int(np.prod(shape)), dtype=dtype, nan_p=nan_p).reshape(shape)
+    if dt.kind == "M":
+        day = 86400 * 10**9
+        iv = gen_values(tape, int(np.prod(shape)), dtype="i8", alphabet=[0, 1, 2, 3, 5]).reshape(shape) * day
+        vals = iv.astype("int64").view("M8[ns]")
+    else:
+        vals = gen_values(tape, int(np.prod(shape)), dtype=dtype, nan_p=nan_p).reshape(shape)
     chunks = [gen_chunks(tape, s, "gen.chunks.lead", max_blocks=3) for s in lead]
     chunks.append(gen_chunks(tape, n, max_blocks=max_blocks))
     by_dask = tape.chance("gen.bydask", by_dask_p)
@@ -481,3 +537,9 @@ def exec_sim(colls, tape: Tape, knobs: dict, ctx, *, info=None, **extra):
         if info.stats:
             ctx.absorb(info.stats)
     return out
+
+
+def plain_kwargs(case) -> dict:
+    """kwargs with the JSON string markers removed (for cells / probes / oracles)."""
+    kw = dec_value(case["kwargs"])
+    return kw
